@@ -45,7 +45,10 @@ impl InstallManifest {
         header.validate()?;
 
         // Parse tags
-        let mut tags = Vec::with_capacity(header.tag_count as usize);
+        // Counts come from the (untrusted) header: never reserve more than the
+        // remaining input can hold (a tag is at least NUL + type = 3 bytes).
+        let remaining = data.len().saturating_sub(cursor.position() as usize);
+        let mut tags = Vec::with_capacity((header.tag_count as usize).min(remaining / 3));
         for _ in 0..header.tag_count {
             let tag =
                 InstallTag::read_options(&mut cursor, binrw::Endian::Big, header.entry_count)?;
@@ -53,7 +56,11 @@ impl InstallManifest {
         }
 
         // Parse file entries
-        let mut entries = Vec::with_capacity(header.entry_count as usize);
+        // An entry is at least NUL + content key + size.
+        let remaining = data.len().saturating_sub(cursor.position() as usize);
+        let min_entry_size = 1 + header.ckey_length as usize + 4;
+        let mut entries =
+            Vec::with_capacity((header.entry_count as usize).min(remaining / min_entry_size));
         for _ in 0..header.entry_count {
             let entry = InstallFileEntry::read_options(
                 &mut cursor,
